@@ -15,7 +15,8 @@ the session (`a` | `b`):
   `aS,<k>,<idhex|->,<targethex|->,<delay>,<v|l|c<n>>` send event `k`; payload = current x, the array [x] by location, or constant n
   `aC,<idhex>`   cancel        `aA,<n>`   x := n        `aX`   session thread ends     `aZ`   its timer sees Stop
   `T,<t>`        time passes to `t` and both timer threads run (session a first)
-Reply: `k:payload:time:via:sess,…` (or `.`) then ` pend=<a>,<b> err=<a>,<b>`.
+  `H,<ms>`       the distance to chrono's largest date (first operation of a script)
+Reply: `k:payload:time:via:sess,…` (or `.`) then ` pend=<a>,<b> err=<a>,<b> crash=<a>,<b>`.
 -/
 namespace Driver.Timer
 open Rfsm Rfsm.Wire Rfsm.Timer
@@ -34,12 +35,15 @@ def W.init : W := ⟨⟨Timer.initWith evDeref 0, Timer.initWith evDeref 0⟩, [
 
 def newDeliveries (before after : List (Delivery Ev)) : List (Delivery Ev) := after.drop before.length
 
+/-- a calm run: when the session thread panics its timer sees the Stop message at once -/
+def settle (t : Timer Nat Ev) : Timer Nat Ev := if t.crashed && !t.stopped then t.stop else t
+
 def W.stepA (s : W) (op : Op Nat Ev) : W :=
-  let a' := s.w.a.step op
+  let a' := settle (s.w.a.step op)
   ⟨{ s.w with a := a' }, s.glog ++ (newDeliveries s.w.a.log a'.log).map (fun d => (0, d))⟩
 
 def W.stepB (s : W) (op : Op Nat Ev) : W :=
-  let b' := s.w.b.step op
+  let b' := settle (s.w.b.step op)
   ⟨{ s.w with b := b' }, s.glog ++ (newDeliveries s.w.b.log b'.log).map (fun d => (1, d))⟩
 
 def optHex (s : String) : Option (Option (List Nat)) :=
@@ -56,6 +60,11 @@ def stepText (s : W) (t : String) : Option W :=
   | ["T", n] =>
     match n.toNat? with
     | some n => some (((s.stepA (.tick n)).stepA .wake).stepB (.tick n) |>.stepB .wake)
+    | none => none
+  | ["H", n] =>
+    -- ms from now to chrono's largest date, as measured by the harness (only legal before any send)
+    match n.toNat? with
+    | some n => some { s with w := { a := { s.w.a with headroom := n }, b := { s.w.b with headroom := n } } }
     | none => none
   | [h, k, id, tg, d, pl] =>
     if h.length = 2 ∧ h.back = 'S' then
@@ -96,7 +105,8 @@ def showDelivery (p : Nat × Delivery Ev) : String :=
 
 def showRun (s : W) : String :=
   (if s.glog.isEmpty then "." else ",".intercalate (s.glog.map showDelivery)) ++
-  s!" pend={s.w.a.pending.length},{s.w.b.pending.length} err={s.w.a.errors},{s.w.b.errors}"
+  s!" pend={s.w.a.pending.length},{s.w.b.pending.length} err={s.w.a.errors},{s.w.b.errors}" ++
+  s!" crash={if s.w.a.crashed then 1 else 0},{if s.w.b.crashed then 1 else 0}"
 
 /-! ### how robust is the exact value against `f64` rounding? -/
 
